@@ -5,7 +5,7 @@ import sys
 
 from ..hdl import *
 from ..hdl._ast import SignalSet, _StatementList, Property
-from ..hdl._xfrm import ValueVisitor, StatementVisitor, LHSMaskCollector
+from ..hdl._xfrm import ValueVisitor, StatementVisitor, LHSMaskCollector, _DrivenMaskCollector
 from ..hdl._mem import MemoryInstance
 from ._base import BaseProcess
 from ._pyeval import value_to_string
@@ -490,7 +490,7 @@ class _FragmentCompiler:
         for domain_name in domains:
             domain_stmts = fragment.statements.get(domain_name, _StatementList())
             domain_process = PyRTLProcess(is_comb=domain_name == "comb")
-            lhs_masks = LHSMaskCollector()
+            lhs_masks = _DrivenMaskCollector()
             lhs_masks.visit_stmt(domain_stmts)
 
             if isinstance(fragment, MemoryInstance):
